@@ -96,6 +96,7 @@ pub const NEAR_MISS: &[&str] = &[
     "+", "-", "...", "..", ".", "+.a", "-.5", "+a", "-b", "->x", "+5x", "-1+", "a.b", ".a", "a#b", "a|b", "|a|", "a'b", "1'a", "a\"b", "'", "`", ",", ",@",
     "#\\a", "#\\space", "#\\spa", "#\\x41", "#\\x", "#\\xZ", "#\\x110000", "#\\xD800", "#\\(", "#\\)", "#\\ ", "#\\λ", "#\\nul", "#\\newline", "#\\delete1",
     "#u8(", "#vu8(", "#u8", "#u", "#v", "#vu9(", "#(", "#[", "{", "}", "\\", "|", "@", "λ", "λx", "→", "+λ", "$x:", "_a:", "é:", ".a:", "..:", "(.k: v)", "(x .y:)", "(.nil .t)", "#(.k:)", ".nil", "-:", "+t:", "#!eof", "1_000",
+    ".|x", ".\"x", ".\u{0}x", "'.|x", "(a .|x)", "(a .\"b\")", "(a .|b|)", "#(.|x)", ".(", ".;c", "+|x", "+\"x",
 ];
 pub const STR_TOKENS: &[&str] = &[
     "\"\"", "\"abc\"", "\"a\\nb\"", "\"\\a\\b\\t\\n\\v\\f\\r\\\"\\\\\"", "\"\\x41;bc\"", "\"\\x41bc;\"", "\"\\x41\"", "\"\\x;\"", "\"\\x110000;\"",
